@@ -266,7 +266,40 @@ class ShimBytes(metaclass=_Meta):
             return _real_bytes.__new__(cls, *a, **k)
         return sx_bytes(*a, **k)
 
-    fromhex = _real_bytes.fromhex
+    @staticmethod
+    def fromhex(s):
+        """bytes.fromhex on symbolic text: ASCII whitespace is skipped, then pairs of hex digits"""
+        if not _real_isinstance(s, T.SStr):
+            return _real_bytes.fromhex(s)
+        e = E()
+        items, out, i = s.items, [], 0
+
+        def isin(c, lo, hi):
+            return (lo <= c <= hi) if _real_isinstance(c, _real_int) else e.decide(z3.And(c >= lo, c <= hi))
+
+        def ws(c):
+            return isin(c, 9, 13) or isin(c, 32, 32)
+
+        def hexval(c, pos):
+            if isin(c, 48, 57):
+                return c - 48
+            if isin(c, 97, 102):
+                return c - 87
+            if isin(c, 65, 70):
+                return c - 55
+            raise ValueError(f"non-hexadecimal number found in fromhex() arg at position {pos}")
+
+        while i < _real_len(items):
+            if ws(items[i]):
+                i += 1
+                continue
+            hi = hexval(items[i], i)
+            if i + 1 >= _real_len(items):
+                raise ValueError(f"non-hexadecimal number found in fromhex() arg at position {i + 1}")
+            lo = hexval(items[i + 1], i + 1)
+            out.append(hi * 16 + lo)
+            i += 2
+        return V.mk_bytes(out)
 
     @staticmethod
     def join(sep, it):
